@@ -61,4 +61,67 @@ ITEMS = [
     Fn(EXPR, 'impl<T> ExprBuilder<T> > fn with_expr_kind', name='ExprBuilder::with_expr_kind', wrap='impl<T> ExprBuilder<T>',
        ensures=[('built', 'r.expr_kind == expr_kind && r.source_loc == self.source_loc && r.data == self.data')]),
     Fn(EXPR, IMPL + ' > fn with_data', name='ExprBuilder::with_data', wrap=WB, ensures=[('fresh', 'r.source_loc is None && r.data == data')]),
+    Fn(EB, TRAIT + ' > fn new', name='ExprBuilder::new', wrap=WB, rewrites=SELF + [(r'T::default\(\)', 'vx_default::<T>()', None)],
+       ensures=[('fresh', 'r.source_loc is None')]),
+    Fn(EXPR, IMPL + ' > fn val', name='ExprBuilder::val', wrap=WB, sig_rewrites=[(r'v: impl Into<Literal>', 'v: Literal', 1)], rewrites=[(r'v\.into\(\)', 'v', 1)],
+       ensures=[('lit', 'r.expr_kind == ExprKind::<T>::Lit(v) && r.source_loc == self.source_loc')]),
+    Fn(EXPR, IMPL + ' > fn var', name='ExprBuilder::var', wrap=WB, ensures=[('var', 'r.expr_kind == ExprKind::<T>::Var(v) && r.source_loc == self.source_loc')]),
+    Fn(EXPR, IMPL + ' > fn slot', name='ExprBuilder::slot', wrap=WB, ensures=[('slot', 'r.expr_kind == ExprKind::<T>::Slot(s) && r.source_loc == self.source_loc')]),
+    Fn(EXPR, IMPL + ' > fn not', name='ExprBuilder::not', wrap=WB,
+       ensures=[('not', 'r.expr_kind == (ExprKind::UnaryApp { op: UnaryOp::Not, arg: Arc::new(e) })')]),
+    Fn(EXPR, IMPL + ' > fn is_eq', name='ExprBuilder::is_eq', wrap=WB,
+       ensures=[('eq', 'r.expr_kind == (ExprKind::BinaryApp { op: BinaryOp::Eq, arg1: Arc::new(e1), arg2: Arc::new(e2) })')]),
+    Fn(EXPR, IMPL + ' > fn less', name='ExprBuilder::less', wrap=WB,
+       ensures=[('less', 'r.expr_kind == (ExprKind::BinaryApp { op: BinaryOp::Less, arg1: Arc::new(e1), arg2: Arc::new(e2) })')]),
+    Fn(EXPR, IMPL + ' > fn lesseq', name='ExprBuilder::lesseq', wrap=WB,
+       ensures=[('lesseq', 'r.expr_kind == (ExprKind::BinaryApp { op: BinaryOp::LessEq, arg1: Arc::new(e1), arg2: Arc::new(e2) })')]),
+    Fn(EXPR, IMPL + ' > fn is_in_arc', name='ExprBuilder::is_in_arc', wrap=WB,
+       ensures=[('in', 'r.expr_kind == (ExprKind::BinaryApp { op: BinaryOp::In, arg1, arg2 })')]),
+    Fn(EXPR, IMPL + ' > fn is_entity_type_arc', name='ExprBuilder::is_entity_type_arc', wrap=WB,
+       ensures=[('is', 'r.expr_kind == (ExprKind::Is { expr, entity_type })')]),
+    Fn(EXPR, IMPL + ' > fn and', name='ExprBuilder::and', wrap=WB,
+       ensures=[('fold', 'r.expr_kind == fold_and(e1, e2)')]),
+    Fn(EXPR, IMPL + ' > fn or', name='ExprBuilder::or', wrap=WB,
+       ensures=[('fold', 'r.expr_kind == fold_or(e1, e2)')]),
+    Fn(EB, TRAIT + ' > fn is_in', name='ExprBuilder::is_in', wrap=WB, rewrites=SELF,
+       ensures=[('in', 'r.expr_kind == (ExprKind::BinaryApp { op: BinaryOp::In, arg1: Arc::new(e1), arg2: Arc::new(e2) })')]),
+    Fn(EB, TRAIT + ' > fn is_entity_type', name='ExprBuilder::is_entity_type', wrap=WB, rewrites=SELF,
+       ensures=[('is', 'r.expr_kind == (ExprKind::Is { expr: Arc::new(expr), entity_type })')]),
+    Fn(EB, TRAIT + ' > fn noteq', name='ExprBuilder::noteq', wrap=WB, rewrites=SELF,
+       ensures=[('desugar', 'is_not(r) && is_bin(*not_arg(r), BinaryOp::Eq, e1, e2)')]),
+    Fn(EB, TRAIT + ' > fn greater', name='ExprBuilder::greater', wrap=WB, rewrites=SELF,
+       ensures=[('desugar', 'is_not(r) && is_bin(*not_arg(r), BinaryOp::LessEq, e1, e2)')]),
+    Fn(EB, TRAIT + ' > fn greatereq', name='ExprBuilder::greatereq', wrap=WB, rewrites=SELF,
+       ensures=[('desugar', 'is_not(r) && is_bin(*not_arg(r), BinaryOp::Less, e1, e2)')]),
+    # --- the constructors on Expr: what the built expression means
+    Fn(EXPR, 'impl Expr > fn val', name='Expr::val', wrap='impl Expr', sig_rewrites=[(r'v: impl Into<Literal>', 'v: Literal', 1)],
+       ensures=[('lit', 'r.expr_kind == ExprKind::<()>::Lit(v)')]),
+    Fn(EXPR, 'impl Expr > fn var', name='Expr::var', wrap='impl Expr', ensures=[('var', 'r.expr_kind == ExprKind::<()>::Var(v)')]),
+    Fn(EXPR, 'impl Expr > fn slot', name='Expr::slot', wrap='impl Expr', ensures=[('slot', 'r.expr_kind == ExprKind::<()>::Slot(s)')]),
+    Fn(EXPR, 'impl Expr > fn not', name='Expr::not', wrap='impl Expr', ensures=[('not', 'r.expr_kind == (ExprKind::UnaryApp { op: UnaryOp::Not, arg: Arc::new(e) })')]),
+    Fn(EXPR, 'impl Expr > fn is_eq', name='Expr::is_eq', wrap='impl Expr',
+       ensures=[('eq', 'r.expr_kind == (ExprKind::BinaryApp { op: BinaryOp::Eq, arg1: Arc::new(e1), arg2: Arc::new(e2) })')]),
+    Fn(EXPR, 'impl Expr > fn is_in', name='Expr::is_in', wrap='impl Expr',
+       ensures=[('in', 'r.expr_kind == (ExprKind::BinaryApp { op: BinaryOp::In, arg1: Arc::new(e1), arg2: Arc::new(e2) })')]),
+    Fn(EXPR, 'impl Expr > fn is_entity_type', name='Expr::is_entity_type', wrap='impl Expr',
+       ensures=[('is', 'r.expr_kind == (ExprKind::Is { expr: Arc::new(expr), entity_type })')]),
+    Fn(EXPR, 'impl Expr > fn less', name='Expr::less', wrap='impl Expr',
+       ensures=[('less', 'r.expr_kind == (ExprKind::BinaryApp { op: BinaryOp::Less, arg1: Arc::new(e1), arg2: Arc::new(e2) })')]),
+    Fn(EXPR, 'impl Expr > fn lesseq', name='Expr::lesseq', wrap='impl Expr',
+       ensures=[('lesseq', 'r.expr_kind == (ExprKind::BinaryApp { op: BinaryOp::LessEq, arg1: Arc::new(e1), arg2: Arc::new(e2) })')]),
+    Fn(EXPR, 'impl Expr > fn and', name='Expr::and', wrap='impl Expr',
+       ensures=[('meaning', 'sem_same(r, mk(ExprKind::And { left: Arc::new(e1), right: Arc::new(e2) }))')],
+       proof_tail='proof { lemma_fold_and(__vx_r, e1, e2); }'),
+    Fn(EXPR, 'impl Expr > fn or', name='Expr::or', wrap='impl Expr',
+       ensures=[('meaning', 'sem_same(r, mk(ExprKind::Or { left: Arc::new(e1), right: Arc::new(e2) }))')],
+       proof_tail='proof { lemma_fold_or(__vx_r, e1, e2); }'),
+    Fn(EXPR, 'impl Expr > fn noteq', name='Expr::noteq', wrap='impl Expr',
+       ensures=[('meaning', 'forall|ev: &Evaluator<\'_>, slots: SlotEnv| #[trigger] sem(ev, slots, r) == sem2(ev, slots, e1, e2, |a: ValueKind, b: ValueKind| Res::Val(vbool(!kind_eq(a, b))))')],
+       proof_tail='proof { lemma_not_bin(__vx_r, BinaryOp::Eq, e1, e2); }'),
+    Fn(EXPR, 'impl Expr > fn greater', name='Expr::greater', wrap='impl Expr',
+       ensures=[('meaning', 'forall|ev: &Evaluator<\'_>, slots: SlotEnv| #[trigger] sem(ev, slots, r) == sem2(ev, slots, e1, e2, |a: ValueKind, b: ValueKind| sem_relation(BinaryOp::Less, vk(b), vk(a)))')],
+       proof_tail='proof { lemma_not_bin(__vx_r, BinaryOp::LessEq, e1, e2); }'),
+    Fn(EXPR, 'impl Expr > fn greatereq', name='Expr::greatereq', wrap='impl Expr',
+       ensures=[('meaning', 'forall|ev: &Evaluator<\'_>, slots: SlotEnv| #[trigger] sem(ev, slots, r) == sem2(ev, slots, e1, e2, |a: ValueKind, b: ValueKind| sem_relation(BinaryOp::LessEq, vk(b), vk(a)))')],
+       proof_tail='proof { lemma_not_bin(__vx_r, BinaryOp::Less, e1, e2); }'),
 ]
